@@ -244,6 +244,41 @@ def explore(ctx, scale=1.0):
             msgs0 = reuse.validate(copy.deepcopy(d), schema_name=t)
             if any(not_allowed(m["error"], k) for m in msgs0):
                 ctx.violation(f"keyword-noversion:{t}/{k}", f"{t.upper()} {k.upper()} rejected without a version", {"type": t, "keyword": k, "document": gen.plain_dict(d)})
+    verdict_oracle(ctx, rng)
+
+
+def verdict_oracle(ctx, rng):
+    """(d) with a version, the verdict is Draft-4 validation against the versioned schema — nothing else may change (the
+    validator class, the treatment of unannotated keywords): real validate(d, t, v) vs an independently instantiated
+    Draft4Validator on a plain copy of the versioned schema, for fragments of every object type"""
+    import jsonschema
+    from mappyfile.validator import Validator
+    V = Validator()
+    n = 400 if ctx.thorough else 60
+    for i in range(n):
+        t = rng.choice(gen.BLOCK_TYPES + ["layer", "class", "style", "label"])
+        b = gen.gen_block(rng, t, depth=rng.choice([0, 1, 2]), max_items=8)
+        d = gen.expected(b)
+        if rng.random() < .5:
+            # numeric keywords at the edge of their range (0 where the schema says exclusiveMinimum, -1, a float at an integer keyword)
+            props = gen.raw(t)["properties"]
+            nums = [k for k, p in props.items() if isinstance(p, dict) and p.get("type") in ("number", "integer") and not k.startswith("__")]
+            for k in rng.sample(nums, min(len(nums), 3)):
+                d[k] = rng.choice([0, -1, 1.0, 2.5, 10 ** 6])
+        v = rng.choice([5.6, 6.0, 7.0, 7.6, 8.0, 8.4])
+        try:
+            msgs = V.validate(copy.deepcopy(d), schema_name=t, version=v)
+            got = sorted(m["error"] for m in msgs)
+        except Exception as ex:
+            got = f"raises {type(ex).__name__}"
+        low = json.loads(json.dumps(V.convert_lowercase(copy.deepcopy(d))))
+        ind = jsonschema.Draft4Validator(plain(Validator().get_versioned_schema(v, t)))
+        want = sorted("ERROR: Invalid value in " + "x" for _ in ind.iter_errors(low))
+        ctx.case(("verdict", t, v, core.canon(d)), True); ctx.count("verdict-docs")
+        if isinstance(got, str) or len(got) != len(want):
+            ctx.violation(f"versioned-verdict:{t}", f"validate({t}, version={v}) gives {got if isinstance(got, str) else str(len(got)) + ' messages'} but Draft-4 validation against the versioned schema reports {len(want)} errors",
+                          {"type": t, "version": v, "document": gen.plain_dict(d), "messages": got if isinstance(got, str) else got[:6]})
+            return
 
 
 def not_allowed(msg, k):
